@@ -460,8 +460,8 @@ def hash_wire(binary, hooks, seed, n):
                 except (wire.Closed, wire.Timeout):
                     ok = False
                 operok = None
-                if ok and " " not in x:
-                    c.send("OPER root " + x)
+                if ok:
+                    c.send("OPER root :" + x)
                     ls = c.ping("o")
                     operok = any(m.verb == "381" for m in ls)
                 c.close()
